@@ -351,4 +351,58 @@ func init() {
 	intrinsics["(*sync.RWMutex).Unlock"] = unlock("W")
 	intrinsics["(*sync.RWMutex).RLock"] = lock("R")
 	intrinsics["(*sync.RWMutex).RUnlock"] = unlock("R")
+	// sync/atomic on addressable int64 cells
+	atomicLV := func(args []Val) (*LValue, error) {
+		if len(args) == 0 {
+			return nil, fmt.Errorf("atomic: no operand")
+		}
+		if args[0].LV != nil {
+			return args[0].LV, nil
+		}
+		if args[0].T != nil && args[0].GoT != nil {
+			if p, ok := args[0].GoT.Underlying().(*types.Pointer); ok {
+				return &LValue{Kind: lvCell, Ref: args[0].T, Typ: p.Elem()}, nil
+			}
+		}
+		return nil, fmt.Errorf("atomic: unsupported operand")
+	}
+	intrinsics["sync/atomic.AddInt64"] = func(x *Exec, s *State, in ssa.Instruction, f *ssa.Function, args []Val) (Val, error) {
+		lv, err := atomicLV(args)
+		if err != nil {
+			return Val{}, err
+		}
+		old, err := x.load(s, lv)
+		if err != nil {
+			return Val{}, err
+		}
+		ii := intInfo{64, true}
+		nv := x.name(s, "atomic$add", wrapInt(IAdd(old, args[1].T), ii))
+		if x.mode == "bv" {
+			return Val{}, fmt.Errorf("atomic.AddInt64 in bv mode")
+		}
+		if err := x.store(s, lv, nv); err != nil {
+			return Val{}, err
+		}
+		return tv(nv, types.Typ[types.Int64]), nil
+	}
+	intrinsics["sync/atomic.LoadInt64"] = func(x *Exec, s *State, in ssa.Instruction, f *ssa.Function, args []Val) (Val, error) {
+		lv, err := atomicLV(args)
+		if err != nil {
+			return Val{}, err
+		}
+		v, err := x.load(s, lv)
+		if err != nil {
+			return Val{}, err
+		}
+		v = x.name(s, "atomic$load", v)
+		s.assume(x.eng.typeInv(v, types.Typ[types.Int64], x.mode, nil))
+		return tv(v, types.Typ[types.Int64]), nil
+	}
+	intrinsics["sync/atomic.StoreInt64"] = func(x *Exec, s *State, in ssa.Instruction, f *ssa.Function, args []Val) (Val, error) {
+		lv, err := atomicLV(args)
+		if err != nil {
+			return Val{}, err
+		}
+		return Val{}, x.store(s, lv, args[1].T)
+	}
 }
